@@ -81,6 +81,55 @@ func TestC09Child(t *testing.T) {
 		return
 	}
 	sorted := sortedIDs(cs.IDs)
+	if cs.Hook == "crossing-lookups-during-joins" && len(sorted) >= 4 {
+		// X forwards lookups to Y and Y forwards lookups to X (neither is the other's neighbour)
+		// while joins at X and at Y make both nodes update their predecessor pointers
+		X, Xs, Y, Ys := sorted[0], sorted[1], sorted[2], sorted[3]
+		mid := func(a, b uint64) uint64 { return (a + ((b-a)&ringMax)/2) & ringMax }
+		kx, ky := mid(Y, Ys), mid(X, Xs) // looked up at X resp. at Y
+		done := make(chan string, 8)
+		nodes := map[uint64]*ringsim.Member{X: r.members[X], Y: r.members[Y]} // (joins write r.members concurrently)
+		worker := func(node, key uint64, n int) {
+			m := nodes[node]
+			for i := 0; i < n; i++ {
+				if _, err := m.Node.FindSuccessor(key); err != nil {
+					done <- "err:" + err.Error()
+					return
+				}
+			}
+			done <- "ok"
+		}
+		for round := 0; round < 6; round++ {
+			b, _ := json.Marshal(c09Lookup{I: round + 1, Phase: "crossing-lookups-during-joins", Node: X, Key: kx, NT: true})
+			say("LOOKUP %s", b)
+			go worker(X, kx, 1500)
+			go worker(Y, ky, 1500)
+			go worker(X, kx, 1500)
+			go worker(Y, ky, 1500)
+			// two joiners, one just before X and one just before Y
+			// (ids increase towards X resp. Y, so X resp. Y stays the successor that has to grant)
+			j1, j2 := (X-1000+uint64(round))&ringMax, (Y-1000+uint64(round))&ringMax
+			joins := make(chan error, 2)
+			go func() { _, err := r.join(j1, Ys); joins <- err }()
+			go func() { _, err := r.join(j2, Xs); joins <- err }()
+			deadline := time.After(25 * time.Second)
+			for got := 0; got < 6; {
+				select {
+				case <-done:
+					got++
+				case <-joins:
+					got++
+				case <-deadline:
+					say("HANG %d", round+1)
+					os.Exit(0)
+				}
+			}
+			say("DONE %d ok", round+1)
+		}
+		r.net.Close()
+		say("END")
+		return
+	}
 	succID := ownerOf(sorted, cs.Joiner)
 	predID := sorted[(idxOf(sorted, succID)-1+len(sorted))%len(sorted)]
 
@@ -313,6 +362,9 @@ var c09Regressions = []c09Case{
 	// still points at 300; keys just behind the joiner are preceded by no finger
 	{IDs: []uint64{100, 200, 300}, Vias: []int{0, 0, 0}, Joiner: 250, Via: 0, Hook: "pred-stabilized-fingers-stale", Nth: 1, Keys: []uint64{251, 260, 299}, KeyRel: []int{1, 1, 1, 2, 2, 2}},
 	{IDs: []uint64{1 << 40, 1 << 47}, Vias: []int{0, 0}, Joiner: 1 << 44, Via: 1, Hook: "pred-stabilized-fingers-stale", Nth: 1, Keys: []uint64{1<<44 + 1, 1 << 46}, KeyRel: []int{1, -1, 1, 3, 2, 2}},
+	// fixed scenario: two non-adjacent nodes forward lookups to each other while joins update
+	// the predecessor pointers of both (lookups must not depend on locks held across a hop)
+	{IDs: []uint64{1 << 44, 5 << 44, 9 << 44, 13 << 44}, Vias: []int{0, 0, 0, 0}, Joiner: 3 << 44, Via: 0, Hook: "crossing-lookups-during-joins", Nth: 1, Keys: []uint64{1}, KeyRel: []int{0}},
 }
 
 func head(s string, n int) string {
